@@ -265,6 +265,7 @@ func runBisyncSim(r *Run, prop string, cfg PipeCfg, st *Stream, maxCrashes int, 
 	idleRestarts := 0
 	resyncs := 0
 	failovers := 0
+	ooms := 0
 	allowFailover := os.Getenv("SIM_C14_NOFAILOVER") != "1"
 	for r.BeginStep() {
 		r.Settle()
@@ -276,11 +277,13 @@ func runBisyncSim(r *Run, prop string, cfg PipeCfg, st *Stream, maxCrashes int, 
 		in := ps.inc
 		ph := in.getPhase()
 		if ph == 2 {
-			if (in.spErr != nil && !in.wasReset) || crashes > maxCrashes+3 {
+			if (in.spErr != nil && !in.wasReset && !in.refused) || crashes > maxCrashes+3 {
 				ps.setViolation(prop+".ended", "replay ended although nothing failed", "incarnation %d ended: spErr=%v sendErr=%v", in.id, in.spErr, in.sendErr)
 				break
 			}
-			crashes++
+			if !in.refused {
+				crashes++
+			}
 			ps.killAll(in.id)
 			ps.startIncarnation()
 			continue
@@ -292,6 +295,9 @@ func runBisyncSim(r *Run, prop string, cfg PipeCfg, st *Stream, maxCrashes int, 
 			o.observe()
 			ps.startIncarnation()
 			continue
+		}
+		if ph == 1 && ps.oomLeft > 0 {
+			ps.oomLeft = 0 // the start is over: memory is back before the replay begins
 		}
 		ready := ps.srv.Ready()
 		allCommitted := true
@@ -332,6 +338,21 @@ func runBisyncSim(r *Run, prop string, cfg PipeCfg, st *Stream, maxCrashes int, 
 				o.observe()
 				ps.startIncarnation()
 			}})
+			if ph == 1 && ooms < 1 {
+				// the link is stopped and started again while the target is out of memory (maxmemory, noeviction): during
+				// the start-up recovery the next few commands that may grow the dataset are refused, deletions are served.
+				// A recovery that cannot store what it rebuilt fails and is tried again; it must not have thrown away what
+				// it rebuilt from
+				acts = append(acts, pipeAction{"restart-target-oom", 2, func() {
+					ooms++
+					crashes++
+					r.W.Fault("target_oom_at_start")
+					ps.crash(r.Sched(), "scheduled, target out of memory at the next start")
+					o.observe()
+					ps.oomLeft = 1 + r.Sched().Choose("oom_requests", 3)
+					ps.startIncarnation()
+				}})
+			}
 			if ph == 1 && resyncs < 1 && len(o.units) >= 4 {
 				// a full resynchronisation under the same replication id: the link is stopped, a snapshot taken at a later
 				// source offset R is loaded (everything up to R is on the target now) and the root checkpoint moves to R.
